@@ -86,7 +86,7 @@ class HeapMaintenance(Harness):
                  "for K = 3 limit orders, K = 4 limit orders with one cancel or tick; then a sweeping counter "
                  "order (limit with symbolic price, or market)",
         "thorough": "K <= 4 with up to 2 ops, all kind mixes for K <= 3, plus K = 5,6,7 limit orders of volume 1 "
-                    "with one op (cancel of any order, or a one-lot counter order + round; for K = 7 the cancels on the sell "
+                    "and pairwise distinct prices with one op (cancel of any order, or a one-lot counter order + round; for K = 7 the cancels on the sell "
                     "side and the partial round on the buy side) before a limit sweep for K lots at a solver-chosen price",
     }
     reach = ("nontrivial", "cancel-nonbest", "expired-some")
@@ -180,6 +180,11 @@ class HeapMaintenance(Harness):
             ttl = g.int(f"ttl{i}", 1, 3) if with_ttl else None
             o = new_order(g, str(i), is_buy=is_buy, market=mk, ttl=ttl, volume=1 if case["deep"] else None)
             vol, price = o.volume, o.price
+            if case["deep"]:
+                # deep books: pairwise distinct prices (price ties are covered by the books of <= 4 orders; with ties
+                # the 7-order space is ~10x larger)
+                for r0 in recs:
+                    g.assume(price != r0["price"])
             log = m._add_order(o)
             m._execution()
             orders.append(o)
